@@ -6,5 +6,8 @@ CHECK = {
         unit("authz", "vault", ["vault/c02_test.go"], "^TestVerif_C02_",
              quick={"checks": 150, "shards": 1, "cap": 900, "steps": 30},
              thorough={"checks": 800, "shards": 16, "cap": 3000, "steps": 60}),
+        unit("http", "http", ["http/c02_http_test.go"], "^TestVerif_C02_HTTP$",
+             quick={"checks": 500, "shards": 1, "cap": 900},
+             thorough={"checks": 2000, "shards": 16, "cap": 3000}),
     ],
 }
